@@ -102,6 +102,7 @@ async def drive(tier: str, seed: int, corpus: E.Corpus, exp: R.Export | None, in
             items += C.sampled23(rnd, 1 if quick else 4)
             items += C.structured_valid(rnd, 100 if quick else 600)
             items += C.structured_boundary()
+            items += C.keep_alive_family(m, sess)
             if not quick or mi_ % 3 == 0:
                 items += C.sf256(m, sess)
             p.fresh(E.ALL)
